@@ -44,7 +44,7 @@ def native_case(draw, model=None):
         s["amp"] = draw(st.sampled_from([1e-3, 1.0, 30.0]))
     winds = [dict(wspd=draw(st.floats(0.5, 40)), wdir=draw(st.floats(0, 359.9)), dpt=draw(st.floats(1, 4000))) for _ in range(min(nt * ns, 4))]
     return dict(model=model, fg=fg, dg=dg, nt=nt, ns=ns, specs=specs, winds=winds, latlon_time=draw(st.booleans()), with_wind=draw(st.booleans()), with_depth=draw(st.booleans()),
-                era5_sparse=draw(st.booleans()))
+                era5_sparse=draw(st.booleans()), turns=draw(st.sampled_from(["none", "none", "neg", "plus", "from270"])))
 
 
 def _native_variance(case, T, nds):
@@ -78,6 +78,12 @@ def check_native(case, ctx):
 
     T = native.truth(case["fg"], case["dg"], case["specs"], case["nt"], case["ns"], case["winds"], gen)
     m = case["model"]
+    # the same physical directions written with other whole-turn representatives (radian models): (-180,180], one turn up,
+    # or a circle that starts at 270 and runs past 360
+    # only for the SWAN layout, whose converter itself wraps (`% 360`), i.e. is written to accept them; WWM writes [0, 2 pi)
+    tm = case.get("turns", "none") if m == "ncswan" else "none"
+    T["turns"] = {"none": np.zeros(len(T["d"])), "neg": np.where(T["d"] > 180.0, -1.0, 0.0), "plus": np.ones(len(T["d"])),
+                  "from270": np.where(T["d"] < 270.0, 1.0, 0.0)}[tm]
     if m == "era5" and case["era5_sparse"]:
         T["E"][T["E"] < 0.05 * T["E"].max()] = 0.0  # zero bins become missing values in the log10 field
     kw = {}
@@ -155,7 +161,7 @@ def check_native(case, ctx):
     E = T["E"]
     asym = not np.allclose(E, np.roll(E, len(T["d"]) // 2, axis=-1)) if len(T["d"]) % 2 == 0 else True
     ctx.nt(bool(asym and np.any(E.max(axis=-1) > E.min(axis=-1))))
-    ctx.label("model=" + m, "dorder=" + case["dg"]["order"], "wind=%s" % case["with_wind"], "depth=%s" % case["with_depth"], "latlon_time=%s" % case["latlon_time"])
+    ctx.label("model=" + m, "native-dir-representation=" + tm, "dorder=" + case["dg"]["order"], "wind=%s" % case["with_wind"], "depth=%s" % case["with_depth"], "latlon_time=%s" % case["latlon_time"])
     ctx.show(dict(model=m, times=case["nt"], sites=case["ns"], grid=[len(T["f"]), len(T["d"])], d_first=[float(x) for x in T["d"][:3]], native_vars=list(nds.data_vars)))
 
 
